@@ -57,6 +57,52 @@ def gen_program(rng, fail_p=0.3):
     return {"tasks": tasks, "codes": codes, "phases": phases}
 
 
+def gen_reentry_program(rng):
+    """a program of 2-4 uses in which the SAME experiment object is entered again (`xp = experiment(...)`, then `with xp:`
+    several times: a notebook cell run again, a retry loop around a failing experiment): failing / succeeding /
+    dependency-cancelled jobs in each use, the failed configuration submitted again after its cause is repaired (exit codes
+    [c, 0]) or not (still failing, or not submitted again at all)"""
+    while True:
+        prog = gen_program(rng, fail_p=0.3)
+        if len(prog["phases"]) >= 2:
+            break
+    mode = rng.choice(["same", "same", "mixed"])
+    key, first_name = 0, {}
+    for p, ph in enumerate(prog["phases"]):
+        if p > 0 and mode == "mixed" and rng.random() < 0.4:
+            key += 1
+        ph["xp"] = key
+        ph["name"] = first_name.setdefault(key, ph["name"])
+    if mode == "mixed" and len(prog["phases"]) >= 3 and rng.random() < 0.5:
+        prog["phases"][-1]["xp"] = 0   # ... and the first object once more after another one was used
+        prog["phases"][-1]["name"] = first_name[0]
+    for r in list(prog["codes"]):    # most failures are repaired before the next use
+        if rng.random() < 0.75:
+            prog["codes"][r] = [prog["codes"][r][0], 0]
+    return prog
+
+
+def _T(val, ups=(), root=None):
+    return {"val": val, "ups": [list(u) for u in ups], "root": root}
+
+
+def reentry_corpus():
+    """fixed programs: (1) use 1: `flaky` fails, `consumer` (takes it) is cancelled, `bystander` runs; the cause is repaired; use 2 of
+    the same object: the three configurations again, all end DONE; (2) use 1 fails, use 2 submits only an unrelated task,
+    use 3 submits the failed one again, still failing"""
+    a = {"tasks": [dict(_T(1), root=0), dict(_T(2, [(0, "list")]), root=1), dict(_T(3), root=2),
+                   dict(_T(1), root=0), dict(_T(2, [(3, "list")]), root=1), dict(_T(3), root=2)],
+         "codes": {"0": [1, 0]},
+         "phases": [{"name": "main", "xp": 0, "steps": [{"t": 0}, {"t": 1}, {"t": 2}]},
+                    {"name": "main", "xp": 0, "steps": [{"t": 3}, {"t": 4}, {"t": 5}]}]}
+    b = {"tasks": [dict(_T(1), root=0), dict(_T(2), root=1), dict(_T(1), root=0), dict(_T(4, [(1, "dict")]), root=3)],
+         "codes": {"0": [2, 2]},
+         "phases": [{"name": "main", "xp": 0, "steps": [{"t": 0}]},
+                    {"name": "main", "xp": 0, "steps": [{"t": 1}, {"wait": True}]},
+                    {"name": "main", "xp": 0, "steps": [{"t": 2}, {"t": 3}]}]}
+    return [a, b]
+
+
 def facts(prog, rec):
     """descriptive facts about one executed program (evidence histograms, non-triviality)"""
     tasks = prog["tasks"]
@@ -86,6 +132,10 @@ def monitors(prog, rec):
     for p, prec in enumerate(rec["phases"]):
         name = prog["phases"][p]["name"]
         where = f"experiment #{p + 1} ('{name}')"
+        key = prog["phases"][p].get("xp")
+        earlier = [q + 1 for q in range(p) if key is not None and prog["phases"][q].get("xp") == key]
+        if earlier:
+            where += f" [the experiment object of #{earlier[0]} entered again: use {len(earlier) + 1} of that object]"
         if prec["hang"]:
             fails.append(("experiment-never-left:multi-experiment", f"{where} could not be left: its jobs never all became final"))
             break
@@ -118,7 +168,7 @@ def monitors(prog, rec):
                        + (" in an earlier experiment of the same program" if p > 0 else ""))
                 fails.append(("exit-status-wrong:multi-experiment", f"leaving {where} reported success although {why}"))
             else:
-                fails.append(("exit-status-wrong:multi-experiment",
+                fails.append(("exit-status-wrong:multi-experiment" if not earlier else "exit-status-wrong:experiment-entered-again",
                               f"leaving {where} reported failure ({prec['exit']}: {prec['msg']}) although none of its jobs ended in error"))
         for t in prec["submitted"]:
             if 0 in prec["started"].get(str(t), []):
@@ -151,17 +201,25 @@ def part(ctx, n):
                  '(list / dict / nested configuration), submitting earlier tasks again (process then succeeds or fails again), '
                  'xp.wait() in the middle; monitors per experiment left: dependents of a task that ended in error (in this or an '
                  'earlier experiment) get no process and end in error, the others complete, leaving raises iff a job of the experiment '
-                 'ended in error; non-trivial = some new task takes a task that failed in an earlier experiment as parameter')
+                 'ended in error; non-trivial = some new task takes a task that failed in an earlier experiment as parameter'
+                 '; + programs in which the SAME experiment object is entered again (2 fixed + n/4 generated: 2-4 uses of one or two '
+                 'objects, failing / succeeding / dependency-cancelled jobs in each use, the failed configuration submitted again after '
+                 'its cause was repaired, or still failing, or not at all), same monitors per use: a use reports failure iff a job '
+                 'submitted in THAT use ended in error')
     import random
     import time
     t0 = time.time()
     base = ctx.rng.randrange(10**9)
     progs = [gen_program(random.Random(base + i)) for i in range(n)]
+    nre = max(8, n // 4)
+    progs += reentry_corpus() + [gen_reentry_program(random.Random(base + 10**6 + i)) for i in range(nre)]
+    n = len(progs)
     tmp = ctx.tmpdir()
     recs = run_programs(tmp, progs, "main")
     found = []
     kinds = {"programs": n, "with_dependency_on_task_failed_in_earlier_experiment": 0, "experiments_left": 0,
-             "experiments_whose_only_errors_are_cancelled_jobs": 0}
+             "experiments_whose_only_errors_are_cancelled_jobs": 0, "programs_entering_an_experiment_object_again": 0,
+             "uses_after_a_use_that_reported_failure": 0, "of_which_reported_success": 0}
     for i, (prog, rec) in enumerate(zip(progs, recs)):
         rec = _confirm_hang(tmp, prog, rec, i)
         if rec["error"] or any(ph["submit_error"] for ph in rec["phases"]):
@@ -172,6 +230,15 @@ def part(ctx, n):
         kinds["experiments_left"] += len(rec["phases"])
         kinds["experiments_whose_only_errors_are_cancelled_jobs"] += f["only_cancelled"]
         case = {"engine": "phases", "program": prog, "seed": base + i}
+        keys = [ph.get("xp") for ph in prog["phases"]]
+        reent = [p for p, k in enumerate(keys[:len(rec["phases"])]) if k is not None and k in keys[:p]]
+        kinds["programs_entering_an_experiment_object_again"] += bool(reent)
+        for p in reent:
+            prev = max(q for q in range(p) if keys[q] == keys[p])
+            if rec["phases"][prev]["exit"] != "ok":
+                kinds["uses_after_a_use_that_reported_failure"] += 1
+                kinds["of_which_reported_success"] += rec["phases"][p]["exit"] == "ok"
+            ctx.count("mx_reentered_use_after", f"{'failure' if rec['phases'][prev]['exit'] != 'ok' else 'success'}->{'failure' if rec['phases'][p]['exit'] != 'ok' else 'success'}")
         ctx.case({"multi_experiment_program": prog}, f["cross_failed"] > 0)
         ctx.count("mx_experiments_per_program", len(prog["phases"]))
         ctx.count("mx_tasks_per_program", len(prog["tasks"]))
